@@ -2,7 +2,7 @@
 import itertools
 import math
 
-from tverif.engine import contract, snapshot
+from tverif.engine import contract, snapshot, opaque_sampler
 from tverif import qsem, ring, fakes
 from tverif.ring import Poly
 
@@ -280,6 +280,46 @@ def o7(h, st):
         else:
             h.check(f"{key} omitted only below the threshold", a * a < 1e-10)
     h.check("no other keys", all(len(k) == n for k in fr) and len(fr) <= 2 ** n)
+    h.done()
+
+
+@contract("C01", "O7b.Backend._statevector_to_frequencies.sampled", targets=[(BK, "Backend._statevector_to_frequencies"), (BK, "Backend._int_to_binstr")], level="S",
+          structures=lambda tier: [{"n": n, "order": o, "support": list(sup)} for n in (1, 2, 3) for o in ("lsq_first", "msq_first")
+                                   for sup in ([(0,), (1,), (0, 1)] if n == 1 else [(1,), (2,), (1, 2), (0, 1, 3)] if n == 2 else [(1,), (4,), (3, 6), (1, 2, 5, 6), (0, 3, 4, 7)])])
+def o7b(h, st):
+    """sampled mode (n_shots set), the sampler OPAQUE: whichever sample sequence over the support the sampler returns, an outcome drawn for amplitude index i is
+    reported under the bitstring of index i that lists qubit 0 first (same key as in exact mode, for either statevector order), with frequency count / n_shots;
+    the sampler is asked for n_shots samples of the exact distribution"""
+    import numpy as np
+    from tangelo.linq.target.target_cirq import CirqSimulator
+    n, sup = st["n"], st["support"]
+    sim = CirqSimulator.__new__(CirqSimulator)
+    sim.statevector_order = st["order"]
+    sim.freq_threshold = 1e-10
+    # support element number j is drawn j+1 times: distinct multiplicities identify every key
+    shots = sum(j + 1 for j in range(len(sup)))
+    sim.n_shots = shots
+    vec = np.zeros(2 ** n, dtype=complex)
+    w = np.arange(1, len(sup) + 1, dtype=float)
+    for j, i in enumerate(sup):
+        vec[i] = np.sqrt(w[j] / w.sum()) * np.exp(0.3j * j)
+    if not h.symbolic:
+        h.check("native: skipped (sampler stub only in the interpreter)", True)
+        h.done()
+        return
+    with opaque_sampler(lambda xk, pk, size, k: [x for j, x in enumerate(xk) for _ in range(j + 1)][:size]) as calls:
+        fr = h.call(BK, "Backend._statevector_to_frequencies", sim, vec)
+    h.check("sampler asked for n_shots samples in total", sum(c[2] for c in calls) == shots, detail=str([c[2] for c in calls]))
+    h.check("sampler given the exact distribution", len(calls) >= 1 and all(abs(sorted(c[1])[j] - sorted(w / w.sum())[j]) < 1e-12 for c in calls for j in range(len(sup))))
+    # the order of the support handed to the sampler is the code's own business: identify element j through its probability (all distinct)
+    xk, pk = calls[0][0], calls[0][1]
+    exp = {}
+    for j in range(len(xk)):
+        i = sup[int(round(pk[j] * w.sum())) - 1]
+        key = "".join(str((i >> (n - 1 - q)) & 1) if st["order"] == "lsq_first" else str((i >> q) & 1) for q in range(n))
+        exp[key] = (j + 1) / shots
+    h.check("sampled outcomes reported under the qubit-0-first bitstring of their amplitude index", set(fr) == set(exp) and all(abs(fr[k] - exp[k]) < 1e-12 for k in exp),
+            detail=f"{fr} vs {exp}")
     h.done()
 
 
